@@ -24,6 +24,8 @@ fn feature(m: &Mut) -> &'static str {
         Mut::BothFlags(f) if f[1] & 0xF0 != 0 => "stream flags: reserved high bits",
         Mut::BothFlags(f) if f[1] == 0x0A => "check: SHA-256",
         Mut::BothFlags(_) => "check: unassigned id",
+        Mut::HeaderFlags(_) => "stream flags: reserved bits in the header only",
+        Mut::FooterFlags(_) => "stream flags: reserved bits in the footer only",
         Mut::FilterId { val, .. } if *val & 0xFFFF_FFFF == 0x21 => "filter: id with low 32 bits == 0x21",
         Mut::FilterId { .. } => "filter: other than LZMA2",
         Mut::ExtraFilter { .. } => "filter: chain with a non-LZMA2 filter first",
@@ -54,7 +56,7 @@ impl Property for C18 {
         }
     }
     fn rule(&self) -> String {
-        "proptest generates a valid .xz file (0..=3 blocks, any supported check); per file the check ENUMERATES re-sealed variants using one unsupported feature each: stream flags (header and footer consistently, CRCs recomputed, Check fields sized per the specification's table and filled with placeholder bytes) with every check id 0..=15 other than None/CRC32/CRC64, with each reserved high bit, with a non-zero first byte; per block: the filter id replaced by delta 0x03, BCJ 0x04..=0x0B, 0x20, 0x22, 0x4000000000000001 (LZMA1), ids whose low 32 bits equal 0x21 (0x21 + k*2^32), random 63-bit ids; a delta or BCJ filter chained before LZMA2; each reserved block-flag bit (0x04,0x08,0x10,0x20) and combinations; after the footer: 4*k zero bytes of stream padding, a second complete stream, padding + second stream. Oracle: Err. The single documented exception: a zero-block file declaring SHA-256 has no Check field anywhere and is completely and correctly decoded to nothing; there only 'Ok => empty output' is asserted. Non-trivial = the file has at least one block; distinct = (file hash, variant).".into()
+        "proptest generates a valid .xz file (0..=3 blocks, any supported check); per file the check ENUMERATES re-sealed variants using one unsupported feature each: stream flags (header and footer consistently, CRCs recomputed, Check fields sized per the specification's table and filled with placeholder bytes) with every check id 0..=15 other than None/CRC32/CRC64, with each reserved high bit, with a non-zero first byte, and the reserved bits set in the header only / in the footer only; per block: the filter id replaced by delta 0x03, BCJ 0x04..=0x0B, 0x20, 0x22, 0x4000000000000001 (LZMA1), ids whose low 32 bits equal 0x21 (0x21 + k*2^32), random 63-bit ids; a delta or BCJ filter chained before LZMA2; each reserved block-flag bit (0x04,0x08,0x10,0x20) and combinations; after the footer: 4*k zero bytes of stream padding, a second complete stream, padding + second stream. Oracle: Err. The single documented exception: a zero-block file declaring SHA-256 has no Check field anywhere and is completely and correctly decoded to nothing; there only 'Ok => empty output' is asserted. Non-trivial = the file has at least one block; distinct = (file hash, variant).".into()
     }
     fn assumptions(&self) -> Vec<String> {
         vec!["a zero-block stream declaring SHA-256 is accepted by lzma-rs (no Check field exists in such a file); refusing it would remove correct behaviour, so it is not asserted".into()]
@@ -105,6 +107,12 @@ impl Property for C18 {
             }
             for first in [1u8, 0x80, 0xFF] {
                 muts.push(Mut::BothFlags([first, spec.check]));
+            }
+            // the same reserved bits on one side only (the other side keeps the
+            // supported flags): refused as unsupported or as inconsistent
+            for f in [[1u8, spec.check], [0x80, spec.check], [0xFF, spec.check], [0, spec.check | 0x10], [0, spec.check | 0x80]] {
+                muts.push(Mut::HeaderFlags(f));
+                muts.push(Mut::FooterFlags(f));
             }
             let mut x = c.salt | 1;
             let mut rnd = move || {
